@@ -70,6 +70,7 @@ static void stream(const Cfg& c, Rng& r, const char* fam, const char* ufam, MK m
       for (int j = 0; j < c.parts; ++j) { if ((j + n) & 1) u.update(parts[j]); else u.update(parts[j].compact()); }
       const auto res = u.get_result();
       observe(res, n, ufam, c, "union result");
+      { const auto res2 = u.get_result(); VF_CHECK(same_chain(read_chain(res2), read_chain(res)), std::string(ufam) + "|get_result|second-result-differs-from-first", "n=" + std::to_string(n)); }
       count("sk_union_checkpoints");
     }
   }
@@ -77,6 +78,7 @@ static void stream(const Cfg& c, Rng& r, const char* fam, const char* ufam, MK m
 
 void run_case(uint64_t idx, Rng& r) {
   (void)idx;
+  seed_order(r);
   const bool T = G().thorough();
   Cfg c;
   c.tuple = r.coin();
